@@ -204,6 +204,47 @@ def SigLoop.step (rearm : Bool) (s : SigLoop) : SigEv → SigLoop
 
 def SigLoop.run (rearm : Bool) (s : SigLoop) (evs : List SigEv) : SigLoop := evs.foldl (SigLoop.step rearm) s
 
+/-! ### Requests that reach a handler while the HTTP frontend is being stopped (D36)
+
+`Http` above takes `http.Server.Shutdown` at its word: it waits for the handlers in flight. It does not wait for all
+of them: it closes every connection that is *idle* at the instant it looks and forgets it, and a kept-alive connection
+(or one that is more than five seconds old and has not sent anything) stays "idle" until net/http has read the whole
+next request — which is then handed to the handler all the same (`late`). Since D36 the frontend counts every handler
+itself, under a lock, unless Stop has begun; then the request is turned away. -/
+
+structure HLate where
+  stopBegun : Bool := false
+  tracked : Nat := 0      -- handlers (and their post-hooks) Stop waits for
+  orphans : Nat := 0      -- handlers running that nothing waits for
+  stopDone : Bool := false
+  deriving DecidableEq, Repr
+
+inductive LEv where
+  | request (late : Bool)     -- a handler is entered; `late`: on a connection Shutdown has written off
+  | done (orphan : Bool)      -- a handler (with its post-response hook) finishes
+  | stopBegin
+  | stopFinish
+  deriving DecidableEq, Repr
+
+/-- `gate = true`: the repaired frontend (handlers count themselves in unless Stop has begun) -/
+def HLate.step (gate : Bool) (s : HLate) : LEv → Option HLate
+  | .request late =>
+    if gate then (if s.stopBegun then none else some { s with tracked := s.tracked + 1 })
+    else if !s.stopBegun then some { s with tracked := s.tracked + 1 }
+    else if late then some { s with orphans := s.orphans + 1 }   -- Shutdown does not know of it, the wait group not yet
+    else none
+  | .done orphan =>
+    if orphan then (if s.orphans = 0 then none else some { s with orphans := s.orphans - 1 })
+    else (if s.tracked = 0 then none else some { s with tracked := s.tracked - 1 })
+  | .stopBegin => if s.stopBegun then none else some { s with stopBegun := true }
+  | .stopFinish => if s.stopBegun && !s.stopDone && s.tracked = 0 then some { s with stopDone := true } else none
+
+def HLate.run (gate : Bool) (s : HLate) : List LEv → Option HLate
+  | [] => some s
+  | e :: rest => match s.step gate e with
+    | some s' => s'.run gate rest
+    | none => none
+
 /-! ## The metrics server (`pkg/metrics/server.go`)
 
 `NewServer` starts one goroutine running `ListenAndServe`: check "shutting down?" → bind → `Serve` (which, finding the
